@@ -141,7 +141,8 @@ PROPS = {
                      "C18_close_last", "C18_replay_on_add", "C18_event_delivery", "C18_silent_after_remove", "C18_isolation"]],
         "streams": [{"pkg": "pkg/dynamic/informer", "test": "TestVerifInformer", "shards": 16, "n_quick": 160, "n_thorough": 1600, "thorough_seeds": 2, "nontrivial": ["delivered"]}],
         "nontrivial": ["delivered"],
-        "rule": "operation sequences (5-14 operations: subscribe, close, add handler with or without its own resync period, remove handlers, outside create/update/delete of an object) "
+        "rule": "operation sequences (6-17 operations: subscribe, close, add handler with or without its own resync period, add handler while another goroutine makes an outside write "
+                "(the new handler's replay is held open so that the write lands inside AddEventHandler), remove handlers, outside create/update/delete of an object) "
                 "over two resources executed on the real SharedInformerFactory against the simulated API server (real LIST/WATCH); after each operation the deliveries per handler, "
                 "the LIST requests and watch cancellations seen by the server and the factory's reference counts are recorded, compared with the model step by step and judged by "
                 "the history specification; non-trivial = some handler received a delivery; distinct = distinct (initial contents, operations) text",
